@@ -36,6 +36,7 @@ def jobs(tier, seed):
     # exhaustive: every acyclic shape over 4 tasks x transition grouping x publish pattern (1024 definitions), every
     # completion order of each; plus a sample of the 5-task family
     js += batches("orders", 1024, 64, gen="shape", gseed=0, p_fail=0.0, max_orders=120, max_completions=6, name="shapes-4-exhaustive")
+    js += batches("orders", 36, 6, gen="chain", gseed=0, p_fail=0.0, max_orders=120, max_completions=7, name="chains-with-recurring-values")
     js += batches("orders", 1024, 64, gen="shape", shape_literal=True, gseed=0, p_fail=0.0, max_orders=120, max_completions=6,
                   name="shapes-4-literal-publishes")
     js += batches("orders", scale(tier, 160, 8000), scale(tier, 16, 100), gen="shape", shape_n=5, shape_sample=True, gseed=seed + 7,
